@@ -79,9 +79,17 @@ def main():
                 sh("git -C /repo checkout -- .")
             else:
                 sh("git checkout -- . && git clean -fdq tests", cwd=wt)
+    dst = os.path.join("/verif/seeded", sid)
+    # keep the results of checks that were run earlier against this seed and not re-run now
+    try:
+        prev = json.load(open(os.path.join(dst, "meta.json"))).get("checks", {})
+    except (OSError, ValueError):
+        prev = {}
+    merged = dict(prev)
+    merged.update(results)
+    results = merged
     meta["checks"] = results
     meta["detected_by"] = [k for k, v in results.items() if v["detected"]]
-    dst = os.path.join("/verif/seeded", sid)
     os.makedirs(dst, exist_ok=True)
     for f in ("patch.diff", "demo.rs", "notes.md"):
         if os.path.exists(os.path.join(out_dir, f)):
